@@ -39,6 +39,8 @@ def check(run):
     _r3(run, beam, att)
     run.include('C01', {'cherab/core/beam/node.pyx', 'cherab/core/model/attenuator/singleray.pyx', 'cherab/core/beam/model.pyx'},
                 'the attenuation is computed for the plasma, beam and atomic data currently attached')
+    from ..cachekey import check_caches
+    check_caches(run, [m_ for m_ in prog.modules.values() if m_.relpath in set(FILES) and not m_.name.endswith('#pxd')], 'C04-K', prog=prog)
 
 
 def _m(ci, name):
